@@ -209,6 +209,7 @@ type Worker struct {
 	Env *Env
 	E   *interp.Engine
 	S   *interp.Solver
+	RS  *interp.Solver // separate solver for native replays (clean scope)
 	N   *Native
 	ID  int
 }
@@ -224,12 +225,20 @@ func (env *Env) NewWorker(id int) (*Worker, error) {
 		s.Close()
 		return nil, err
 	}
-	return &Worker{Env: env, E: interp.NewEngine(env.P), S: s, N: n, ID: id}, nil
+	rs, err := interp.NewSolver(20000)
+	if err != nil {
+		s.Close()
+		n.Close()
+		return nil, err
+	}
+	rs.Raw(stateDecls)
+	return &Worker{Env: env, E: interp.NewEngine(env.P), S: s, RS: rs, N: n, ID: id}, nil
 }
 
 func (w *Worker) Close() {
 	w.E.FlushCoverage()
 	w.S.Close()
+	w.RS.Close()
 	w.N.Close()
 }
 
@@ -257,6 +266,7 @@ func (env *Env) RunJobs(n int, rep *Report, job func(w *Worker, i int)) {
 			}
 			defer func() {
 				rep.addSolver(w.S)
+				rep.addSolver(w.RS)
 				w.Close()
 			}()
 			for {
@@ -502,6 +512,23 @@ func (w *Worker) RunCase(cs *Case, rep *Report) {
 			if r.Outcome == interp.PathTargetPanic {
 				rep.note(fmt.Sprintf("case %s: target panic: %s", cs.Name, r.Msg))
 			}
+			if (r.Outcome == interp.PathInconclusive || r.Outcome == interp.PathTargetPanic) && !stopped {
+				// Completion of a path the engine could not finish: one model
+				// of its path condition is run on the native build with the
+				// same oracle. This does not cover the path (it stays counted
+				// as inconclusive) but a violation found this way is real.
+				vars := append(cs.Prog.Atoms.Vars(), c.IntVars...)
+				if res, model := c.CheckModel("true", vars); res == interp.Sat {
+					if values, err := cs.Prog.Atoms.ModelValues(model); err == nil {
+						rep.completion()
+						if ok, rv, srcs, outs := w.Replay(cs, values, srcOf); ok {
+							f := &Finding{Property: rep.Property, Case: cs.Name, Sub: rv.Sub, Msg: rv.Msg + " (found on a model of a path the engine could not finish: " + r.Msg + ")", Detail: rv.Detail, Sources: srcs, Outputs: outs, Model: model, AtomValues: values, Shape: cs.Shape, Confirmed: true, Tags: rv.Tags}
+							rep.violation(f)
+							stopped = true
+						}
+					}
+				}
+			}
 			return
 		}
 		x, _ := c.User["x"].(*OracleCtx)
@@ -638,7 +665,7 @@ func (w *Worker) Replay(cs *Case, values map[int]string, srcOf map[*Program]stri
 		}
 		rv = cs.Oracle(x)
 	}
-	w.E.Explore(w.S, 1, body, nil)
+	w.E.Explore(w.RS, 1, body, nil)
 	// restore symbolic binding of atoms is done by the next Declare
 	return rv != nil, rv, srcs, outs
 }
@@ -696,6 +723,7 @@ type Report struct {
 	PathBoundHit int
 	CrossOK      int
 	CrossSkipped int
+	Completions  int
 	EngineMism   []string
 	Violations   []*Finding
 	Unconfirmed  []*Finding
@@ -795,6 +823,7 @@ func (r *Report) addSolver(s *interp.Solver) {
 	r.mu.Unlock()
 }
 
+func (r *Report) completion()   { r.mu.Lock(); r.Completions++; r.mu.Unlock() }
 func (r *Report) crossOK()      { r.mu.Lock(); r.CrossOK++; r.mu.Unlock() }
 func (r *Report) crossSkipped() { r.mu.Lock(); r.CrossSkipped++; r.mu.Unlock() }
 func (r *Report) engineMismatch(s string) {
@@ -935,6 +964,7 @@ func (r *Report) Finish(env *Env) int {
 			"solver_errors":                 r.solverErrs,
 			"traces_validated_against_impl": r.CrossOK,
 			"cross_check_skipped":           r.CrossSkipped,
+			"inconclusive_paths_completed_by_one_native_model": r.Completions,
 			"engine_mismatches":             len(r.EngineMism),
 			"reachability_witnesses":        r.Witnesses,
 			"known_findings_hit":            r.KnownHit,
